@@ -17,7 +17,7 @@ import warnings
 
 import numpy as np
 
-from . import lib
+from . import lib, hist
 from .lib import cbool, cnat, cZ, clist, cshape, copt
 
 HEADER = ('From Coq Require Import List ZArith Bool.\n'
@@ -88,6 +88,15 @@ def raw_array(d):
 
 
 def build(d, Pm):
+    obj = _build(d, Pm)
+    h = d.get('hist')
+    if h and d['form'] == 'qube':         # the operand is reached through a history (harness/hist.py)
+        mode = h[0] if h[0] in hist.modes_for(obj) else 'setitem'
+        obj = hist.reach(Pm, obj, mode, h[1])
+    return obj
+
+
+def _build(d, Pm):
     form = d['form']
     arr = raw_array(d)
     if form == 'qube':
@@ -1030,6 +1039,35 @@ def gen_cases(rng, tier):
                 lb = ()
             cases.append(pick_variant(rng, op, fa, fb, la, lb))
         cases.extend(gen_unary(rng, 6000))
+    # history core: every operator with a float Scalar operand obtained as (x0 with a derivative and warm cache) + number,
+    # on either side, plain distinct values (the derivative-free twin of such an operand is what %, // consult)
+    for op in BINOPS:
+        if op == 'pow':
+            continue
+        for side in ('a', 'b'):
+            for lead in ((4,), (2, 2), ()):
+                n = int(np.prod(lead))
+                c = {'op': op, 'a': {'form': 'qube', 'cls': 'Scalar', 'kind': 'float', 'lead': list(lead), 'numer': [],
+                                     'denom': [], 'vals': [13, 17, 19, 23][:n], 'mask': False, 'unit': None},
+                     'b': {'form': 'qube', 'cls': 'Scalar', 'kind': 'float', 'lead': list(lead), 'numer': [],
+                           'denom': [], 'vals': [3, 5, 7, 11][:n], 'mask': False, 'unit': None}}
+                c[side]['hist'] = ['derived', 0]
+                cases.append(c)
+    # a fraction of the polymath operands is REACHED THROUGH A HISTORY (harness/hist.py); the reference is still
+    # computed from the description (seeded change C04-D: x + number keeping the cached wod of x)
+    HM = ['derived', 'derived', 'derived', 'derived', 'setitem', 'iadd', 'isub', 'imul', 'itruediv', 'iand', 'ior']
+    for c in cases:
+        for k in ('a', 'b'):
+            if k in c and c[k].get('form') == 'qube' and 'hist' not in c[k] and rng.random() < 0.3:
+                mode = rng.choice(HM)
+                # 'derived' leaves an extra derivative on the operand: only where that cannot change what the
+                # operation accepts (Scalar op Scalar / number, not an exponent)
+                others = [c[j] for j in ('a', 'b') if j in c and j != k]
+                plain = c[k].get('cls') == 'Scalar' and c['op'] != 'pow' and \
+                    all(o.get('cls', 'Scalar') == 'Scalar' for o in others)
+                if mode == 'derived' and not plain:
+                    mode = 'setitem'
+                c[k] = dict(c[k], hist=[mode, rng.randrange(24)])
     return cases
 
 
@@ -1256,6 +1294,8 @@ def run_case(c, Pm):
                 and r['numer'] == tuple(c['a']['numer']) and r['denom'] == tuple(c['a']['denom'])):
             res['inplace'] = run_inplace(c, Pm)
             ulps = res['ref'].ulps if isinstance(res['ref'], Res) else 4
+            if c['op'] == 'truediv' and c['b']['form'] not in ('pyint', 'pyfloat', 'pybool', 'npint', 'npfloat'):
+                ulps = max(ulps, 2)     # x /= y is documented as x *= y.reciprocal(): two roundings instead of one
             if res['inplace']['t'] == 'obj' and not same_answer(res['inplace'], r, ulps):
                 res['bad'].append('inplace-differs-from-binary')
     return res
